@@ -23,3 +23,33 @@ def natList? (s : String) (sep : Char) : Option (List Nat) :=
   (splitList s sep).mapM String.toNat?
 
 end Litestream.Driver
+
+namespace Litestream.Driver
+
+/-- A handler table maps the first token of a line to a function of its `KEY=value` arguments. -/
+abbrev Handlers := List (String × (List (String × String) → String))
+
+def dispatch (hs : Handlers) (line : String) : String :=
+  let toks := (line.trimAscii.toString.splitOn " ").filter (· ≠ "")
+  match toks with
+  | [] => "bad-op"
+  | cmd :: rest =>
+    match hs.find? (fun h => h.1 == cmd) with
+    | some h => h.2 (parseArgs rest)
+    | none => "bad-op"
+
+partial def loop (hs : Handlers) (hin hout : IO.FS.Stream) : IO Unit := do
+  let line ← hin.getLine
+  if line.isEmpty then return ()
+  hout.putStrLn (dispatch hs line)
+  hout.flush
+  loop hs hin hout
+
+/-- `main` of every per-property driver: one operation per input line, one output line each. -/
+def runDriver (hs : Handlers) : IO Unit := do
+  let hin ← IO.getStdin
+  let hout ← IO.getStdout
+  loop hs hin hout
+  hout.flush
+
+end Litestream.Driver
